@@ -264,6 +264,58 @@ func runC17(c *vf.Ctx) {
 			if len(want) > 1 {
 				c.Inc("expanded_results")
 			}
+			// a newer record for the same provider changes extended providers IN PLACE (same context ids and
+			// peers; override flags, metadata, addresses differ): after a refresh the expansion follows it
+			if ss, isStatic := src.(*staticSource); isStatic && info.ExtendedProviders != nil && r.Intn(2) == 0 {
+				nb, _ := json.Marshal(info)
+				var newer model.ProviderInfo
+				if json.Unmarshal(nb, &newer) != nil || newer.ExtendedProviders == nil {
+					return
+				}
+				newer.LastAdvertisementTime = "2025-06-07T08:09:10Z"
+				xp := newer.ExtendedProviders
+				for k := range xp.Contextual {
+					if r.Intn(2) == 0 {
+						xp.Contextual[k].Override = !xp.Contextual[k].Override
+					}
+					for m := range xp.Contextual[k].Metadatas {
+						if r.Intn(2) == 0 {
+							xp.Contextual[k].Metadatas[m] = rbytes(r, 1+r.Intn(5))
+						}
+					}
+				}
+				for m := range xp.Metadatas {
+					if r.Intn(2) == 0 {
+						xp.Metadatas[m] = rbytes(r, 1+r.Intn(5))
+					}
+				}
+				ss.infos = []*model.ProviderInfo{&newer}
+				if err := pc.Refresh(context.Background()); err != nil {
+					c.Fail(sub, i, "refresh-error", err.Error(), wit())
+					return
+				}
+				got2, err := pc.GetResults(context.Background(), main.ID, ctxID, lookedUp)
+				if err != nil {
+					return
+				}
+				want2 := c17Spec(&newer, ctxID, lookedUp)
+				var g2, w2 []string
+				for _, g := range got2 {
+					if g.Provider == nil {
+						g2 = append(g2, "<nil provider>")
+						continue
+					}
+					g2 = append(g2, specResult{g.Provider.ID, addrKey(g.Provider.Addrs), g.ContextID, g.Metadata}.String())
+				}
+				for _, w := range want2 {
+					w2 = append(w2, w.String())
+				}
+				if strings.Join(g2, "\n") != strings.Join(w2, "\n") {
+					nj, _ := json.Marshal(&newer)
+					c.Fail(sub, i, "expansion-differs-after-record-update", fmt.Sprintf("after the source delivered a newer record and a refresh:\n got:\n  %s\nwant:\n  %s\nnewer record: %s", strings.Join(g2, "\n  "), strings.Join(w2, "\n  "), nj), wit())
+				}
+				c.Inc("updated_in_place_then_refreshed")
+			}
 		})
 		c.Eval(1)
 		if info.ExtendedProviders != nil {
